@@ -178,7 +178,7 @@ func EngineUnits(prop string, t Tier, seed uint64) ([]engine.Unit, error) {
 		cfg.PoolMax = 80
 		cfg.Sweeps = 3 * t.F
 		cfg.CheckEvery = []int{1000}
-		us := allKindUnits(cfg, seed, fewColl, 6*t.F)
+		us := allKindUnits(cfg, seed, append(append([]string{}, fewColl...), "und+ignorecase", "en+loose"), 6*t.F)
 		if t.F > 1 {
 			// long histories: the shape is checked after every operation on trees of thousands of keys
 			lc := *cfg
@@ -195,6 +195,7 @@ func EngineUnits(prop string, t Tier, seed uint64) ([]engine.Unit, error) {
 		cfg.Sweeps = 0
 		cfg.Closed = false
 		cfg.CheckEvery = []int{15, 40}
+		cfg.FanHistories = 2 * t.F
 		return allKindUnits(cfg, seed, fewColl, 4*t.F), nil
 	case "C15":
 		cfg := base(prop, engine.MPurity, t)
